@@ -2,6 +2,8 @@
 
 package codec
 
+import "github.com/PapaCharlie/go-restli/v2/restlicodec"
+
 // The root module's generator flattens includes and has no restli/patch package; partial updates
 // are exercised against the v2 module only.
 func (x *runner) runPatchC11() {}
@@ -9,4 +11,14 @@ func (x *runner) runPatchC07() {}
 func (x *runner) runBatchC07() {}
 func (x *runner) runQueryC09() {}
 func (x *runner) runEnvelopes() {}
-func (x *runner) runQueryDecK(int) {}
+
+// the query-parameters runner works without bindings (interpreter); these exist for it to compile
+type fieldsMarshaler interface {
+	MarshalFields(keyWriter func(string) restlicodec.Writer) error
+}
+
+type fieldUnmarshaler interface {
+	UnmarshalField(reader restlicodec.Reader, field string) (found bool, err error)
+}
+
+func (b *Bridge) EncodeQuery(string, *V) (string, []byte) { return "", nil }
